@@ -8,6 +8,7 @@ exec 9>"$WORK/build.lock"; flock 9
 case "$ID" in
   C18) KIND=test18;;
   C19) KIND=inst; CFG=c19; MAINPKG=vhc19; RACE=1; TARGETS="internal/core/runtime:index.go,imports.go cue:decode.go internal/core/convert:go.go internal/core/adt:context.go cue/token:position.go";;
+  C16) KIND=inst; CFG=c16; MAINPKG=vhc16; MAPARG="-map os=cuelang.org/go/internal/verif/shim/vos,github.com/rogpeppe/go-internal/lockedfile=cuelang.org/go/internal/verif/shim/vlockedfile"; TARGETS="mod/modcache:fetch.go,cache.go mod/modzip:zip.go internal/robustio:robustio.go,robustio_other.go internal/par:work.go";;
   C17) KIND=inst; CFG=c17; MAINPKG=vhc17; RACE=1; TARGETS="internal/par:work.go,queue.go internal/mod/modpkgload:pkgload.go internal/mod/modload:tidy.go,query.go internal/mod/modrequirements:requirements.go";;
   C14) KIND=inst; CFG=c14; MAINPKG=vhc14; TARGETS="internal/par:work.go internal/mod/mvs:mvs.go";;
   *) KIND=plain;;
@@ -24,7 +25,7 @@ case "$KIND" in
     /verif/lib/gen_overlay.py "$WORK/overlay.json" >&2
     (cd /repo && go build -overlay "$WORK/overlay.json" -o "$WORK/bin/instrument" ./internal/verif/cmd/instrument) >&2
     rm -rf "$WORK/inst/$CFG"; mkdir -p "$WORK/inst/$CFG"
-    "$WORK/bin/instrument" -out "$WORK/inst/$CFG" $TARGETS > "$WORK/inst/$CFG/frag.json" || { echo "ENGINE-ERROR instrumenter failed" >&2; exit 2; }
+    "$WORK/bin/instrument" -out "$WORK/inst/$CFG" ${MAPARG:-} $TARGETS > "$WORK/inst/$CFG/frag.json" || { echo "ENGINE-ERROR instrumenter failed" >&2; exit 2; }
     /verif/lib/gen_overlay.py "$WORK/overlay-$CFG.json" "$WORK/inst/$CFG/frag.json" >&2
     (cd /repo && go build -overlay "$WORK/overlay-$CFG.json" -o "$WORK/bin/verifh-$CFG" ./internal/verif/cmd/$MAINPKG) >&2
     if [ "${RACE:-}" = 1 ]; then
